@@ -102,6 +102,41 @@ TEXT_FOLDING = ('eq_ignore_ascii_case', 'to_lowercase', 'to_uppercase', 'to_asci
                 'make_ascii_uppercase', 'impl str>::trim', 'impl str>::strip_prefix', 'impl str>::strip_suffix', 'impl str>::replace', 'to_pascal_case')
 
 
+def resolution_rules(ctx):
+    """the schema the (de)serializers work from is the one the JSON text denotes: name keys, namespace threading and the
+    parser's tables (shared by the datum properties C01 / C03: a reference bound to the wrong definition decodes valid
+    data wrongly without any change to the codec itself)"""
+    f = ctx.f
+    rn = fn_by_label(f, PM + 'SchemaConstructionState::register_node')
+    if rn is None:
+        ctx.ob('NSARG', 'anchor', False, None, 'register_node not found')
+        return
+    fam = [rn] + f.closures_of(rn)
+    nsarg(ctx, rn, fam)
+    namekey(ctx, rn, fam)
+    state_rule(ctx, rn)
+
+
+def string_forms_rule(ctx):
+    """a JSON string reaches a serde visitor as visit_borrowed_str only when it has no escape; with an escape (or from a
+    reader) it arrives through visit_str / visit_string.  Every hand-written visitor of the schema parser that accepts a
+    borrowed string therefore also accepts visit_str (visit_string defaults to it): a schema is not rejected for how its
+    JSON is spelled"""
+    f = ctx.f
+    vis = {}
+    for b in f.body_list:
+        if b.j.get('impl_trait') == 'serde_core::de::Visitor' and b.j['kind'] != 'closure' and not b.j.get('from_expansion') and \
+                fn_label(b).startswith(('<schema::', 'schema::', '<<schema::')):
+            vis.setdefault(b.j.get('impl') or b.j.get('self_ty') or '?', set()).add(b.name)
+    n = 0
+    for k, meths in sorted(vis.items()):
+        if 'visit_borrowed_str' in meths:
+            n += 1
+            ctx.ob('REJECT', 'string-forms/%s' % strip_generics(k).rsplit('::', 1)[-1].rstrip('>'), 'visit_str' in meths, None,
+                   'hand-written visitor accepting borrowed strings implements %s; visit_str (escaped / owned strings) present: %s' % (sorted(m for m in meths if 'str' in m), 'visit_str' in meths))
+    ctx.floor('REJECT', 'hand-written string visitors in the schema parser', n, 1)
+
+
 def exact_text(ctx):
     """names and type keywords are compared as written: Avro names are case sensitive and `String`, `Long`, `Record` are
     legal user type names, so nothing in schema parsing / naming folds case, trims or rewrites text"""
@@ -126,6 +161,7 @@ def exact_text(ctx):
 
 def namekey(ctx, rn, fam):
     exact_text(ctx)
+    string_forms_rule(ctx)
     NK = PM + 'NameKey'
     # the two rsplit_once('.') calls and the NameKey aggregates around them
     rs = [(bb, t) for bb, t in rn.calls() if cname(t).endswith('str::<impl str>::rsplit_once')]
